@@ -69,6 +69,11 @@ pub fn gen_library(seed: u64, n: usize) -> BTreeMap<String, String> {
         }
         lib.insert(k, t);
     }
+    // a reference cycle that is reachable from a root: cyc0 <-> cyc1, and two roots that include one of them each
+    lib.insert("cyc0".to_string(), "# Cycle zero\n\n[one](cyc1)\n\ntext\n".to_string());
+    lib.insert("cyc1".to_string(), "# Cycle one\n\n[zero](cyc0)\n\n## Inner\n\ntext\n".to_string());
+    lib.insert("cycroot0".to_string(), "# Root zero\n\n[zero](cyc0)\n".to_string());
+    lib.insert("d1/cycroot1".to_string(), "# Root one\n\n[one](../cyc1)\n".to_string());
     // notes of identical byte length that embed the same note, with equally long titles: every
     // tie-break that falls back on load order or node ids shows here
     lib.insert("shared/leaf".to_string(), "# Shared leaf\n\nleaf text\n".to_string());
